@@ -7,8 +7,8 @@ HOOK_COMMITS = ["57c9cc3"]
 # id -> (level category, technique, level text, level note, design ref, engine)
 CHECKS = {
  "C01": ("exploration", "bounded-exhaustive enumeration of packet values (per-field whole domains over two baselines) through the real encoder and decoder, both directions",
-         "Every Gen case (73 kinds x B0/B1 x every field's bounded domain: all 8-bit values, 16-bit boundary sets in quick / whole 16-bit domains in thorough, 32-bit boundary + byte-lane sets, every enumerant, flag subsets, all nibble pairs, counts 0..max, list-element value sweeps at the first and at the last position, MAL/IPB element values, text) x both size modes is encoded, decoded and re-encoded: typed->wire->typed equality (Debug) and wire->typed->wire byte identity on every frame the encoder produced. Decoder-independent typed values cover the hand-written reader/writer pairs (ConInfo nibbles, SmallType durations, CimMode, RaceLaps, Fuel, Vehicle, allowed cars, multi-codepage MSO), every counted kind at 0, 1, 2 and the maximum number of elements in both modes, in-width multi-codepage text in all 30 text fields, and MSO with name / text / TextStart across code pages and user types.",
-         "Beyond one-field sweeps, all pairs of fields (top level and inside one list element) are explored over boundary values, every enumerant and flag bit (thorough: whole bytes); triples are not; typed values of the Gen site come from decoding in-domain specification frames.", "DESIGN.md §4 C01", "E1"),
+         "Every Gen case (73 kinds x B0/B1 x every field's bounded domain: all 8-bit values, 16-bit boundary sets in quick / whole 16-bit domains in thorough, 32-bit boundary + byte-lane sets, every enumerant, flag subsets, all nibble pairs, counts 0..max, list-element value sweeps at the first and at the last position, MAL/IPB element values, text) x both size modes is encoded, decoded and re-encoded: typed->wire->typed equality (Debug) and wire->typed->wire byte identity on every frame the encoder produced. Decoder-independent typed values cover the hand-written reader/writer pairs (ConInfo nibbles, SmallType durations, CimMode, RaceLaps, Fuel, Vehicle, allowed cars, multi-codepage MSO; ObjectInfo in UCO / JRR / AXM with every flags byte x documented object indices x every action), every counted kind at 0, 1, 2 and the maximum number of elements in both modes, in-width multi-codepage text in all 30 text fields, and MSO with name / text / TextStart across code pages and user types.",
+         "Beyond one-field sweeps, all pairs of fields (top level and inside one list element) are explored over boundary values, every enumerant and flag bit (thorough: whole bytes); triples of top-level fields as well (narrower value sets in kinds with more than 9 fields: both ends, top bit, every enumerant and flag bit, the values the protocol documents as special); typed values of the Gen site come from decoding in-domain specification frames.", "DESIGN.md §4 C01", "E1"),
  "C02": ("model_checking",
          "bounded-exhaustive enumeration of an explicit layout model (spec table) with full conformance replay through the real codec",
          "Model = an independent transcription of the InSim v9 / relay layouts (spec/insim_v9.spec) with a table-driven reference encoder. Every value of every field's specification domain (every enumerant, flag bit / subset, boundary integers, whole 8/16-bit domains in the thorough tier, text, counts 0..max) x 2 baselines x 2 size modes is replayed through Codec::decode and Codec::encode and compared field by field and byte by byte. A deviation shared by reader and writer, which round-trips and passes every unit test, is caught because the oracle is independent of the Rust declarations.",
@@ -52,10 +52,10 @@ E2_CHECKS = {
          "Every partition of every short inbound stream (all sequences <= 3/4 over 6-8 frame kinds, both modes, both implementations) into transport reads is covered by merging states on (receive buffer, spare capacity, stream position, budgets); injected transient read errors (4 kinds, budget 1-2), EOF at every point and a 30 s clock step at any suspension (tokio); sessions longer than the 6120-byte buffer, including a repeating pattern of every short frame kind shifted through every alignment with the last byte of the allocation and delivered as much at a time as the connection takes; frames whose parser wants more or less than they announce (short SMALL, MSO without NUL, over-running MCI) sharing reads with their successors; and one connection per implementation and mode that receives 2^32 + 2^20 bytes (thorough; 2^24 + 2^16 in quick) of whole frames, with reads as large as asked and of 7 bytes (library built with overflow checks). On every transition the results so far must equal the reference read loop's (one result per frame, in order, errors do not disturb successors, nothing lost after a transient error, Disconnected after EOF).",
          "Per-frame content expectation = the real codec on that frame alone. Long sessions use boundary-relative chunk sizes, not every k.", "DESIGN.md §4 C05", "E2"),
  "C06": ("model_checking", "explicit-state search over all transport acceptance patterns of the real write path",
-         "For packet sequences over {4, 8, 12, 68, 228-byte frames}, every acceptance count at every transport write call, 'not ready' (Pending for tokio, Interrupted for blocking; once, twice and 300 times in a row) and 30 s clock steps while a tokio write is suspended are explored on both implementations and modes; on every transition the accumulated bytes are a prefix of the concatenated frames and complete when write() returns Ok.",
+         "For packet sequences over {4, 8, 12, 68, 228-byte frames}, every acceptance count at every transport write call, packets the codec refuses part-way among the writes (the refusal is reported, the wire never hears of it, the neighbours go out whole), 'not ready' (Pending for tokio, Interrupted for blocking; once, twice and 300 times in a row) and 30 s clock steps while a tokio write is suspended are explored on both implementations and modes; on every transition the accumulated bytes are a prefix of the concatenated frames and complete when write() returns Ok.",
          "Acceptance counts for frames > 12 bytes are {1,2,3,4,n/2,n-1,n}.", "DESIGN.md §4 C06", "E2"),
  "C07": ("model_checking", "explicit-state search over received-packet histories, segmentations and reply-side acceptance patterns",
-         "Every single TINY (sub-type byte x request id), every kind's frame between two keep-alives, all sequences <= 3/4 over 5 frame kinds with every partition, the reply split/delayed on the write side, and sequences over {keep-alive, VER 9, VER 8, SMALL} with the version gate on, the caller's own reads and writes dropped around a keep-alive, and any number of 30 s clock steps while a reply waits for a transport that is not ready: outbound bytes are exactly one pong per keep-alive handed over, accepted before the hand-over, and nothing for anything else.",
+         "Every single TINY (sub-type byte x request id), every kind's frame between two keep-alives, all sequences <= 3/4 over 5 frame kinds with every partition, the reply split/delayed on the write side, and sequences over {keep-alive, VER 9, VER 8, SMALL} with the version gate on, the caller's own reads and writes dropped around a keep-alive (the packet written being a SMALL, an ISI, a reply-shaped TINY, every TINY sub-type incl. Close, every kind's B1 packet), a write or handshake the codec refuses part-way before the reads, and any number of 30 s clock steps while a reply waits for a transport that is not ready: outbound bytes are exactly one pong per keep-alive handed over, accepted before the hand-over, and nothing for anything else.",
          "quick tier samples request ids for non-zero sub-types (all 256 for sub-type 0); thorough covers all.", "DESIGN.md §4 C07", "E2"),
  "C09": ("model_checking", "explicit-state search over version values x gate setting x position x implementation",
          "All 256 InSim version values x verify on/off x {blocking, tokio} x 4 positions x 2 modes, whole and byte-by-byte delivery, pairs of VER packets (the gate applies to every one, not the first), the gate as set through the public builder (tcp and udp), a handshake (default and all-fields-changed ISI) or one written packet of every kind in front of the reads, VER-shaped frames announcing 24, 28 and 80 bytes delivered byte by byte, 300 VERs on one connection, plus every other kind with the gate on: delivered iff (gate off or version 9), otherwise IncompatibleVersion(v); later packets unaffected.",
@@ -68,11 +68,11 @@ CHECKS.update(E2_CHECKS)
 HOOK_COMMITS.append("1b683f3")
 
 CHECKS["C08"] = ("model_checking", "explicit-state search over (receive buffer, spare capacity, adaptor buffer) with every transition executed on real loopback UDP sockets in lock-step",
-         "States are the connection's buffer/spare-capacity/adaptor-buffer triples reached by datagram histories (both adaptors, both modes); actions are datagrams of 6-16 compositions (1..255 packets, 4..1020 bytes) bursts of 2-3 datagrams queued before the connection reads, and a transient socket error (port unreachable) in any state; every spare-capacity value (multiples of 4 from 6120 down to 0 and across the reclaim) is reached and every composition is tried in it; oracle: the packets read equal the frames of the datagram just sent; every kind's packet (both modes, up to the largest counted frames) leaves as exactly one datagram holding its frame.",
+         "States are the connection's buffer/spare-capacity/adaptor-buffer triples reached by datagram histories (both adaptors, both modes); actions are datagrams of 6-16 compositions (1..255 packets, 4..1020 bytes) bursts of 2-3 datagrams queued before the connection reads, and a transient socket error (port unreachable) in any state; every spare-capacity value (multiples of 4 from 6120 down to 0 and across the reclaim) is reached and every composition is tried in it; oracle: the packets read equal the frames of the datagram just sent; every kind's packet (both modes, up to the largest counted frames) leaves as exactly one datagram holding its frame; every composition again through connections made by the public Builder (blocking / tokio x mode x with / without a local address).",
          "Loopback UDP, one datagram or one burst in flight; 400 ms search watchdog, witnesses re-confirmed with a 2 s watchdog.", "DESIGN.md §4 C08", "E2")
 
 CHECKS["C18"] = ("model_checking", "explicit-state search over all reachable states of the real Builder (setter histories replayed on fresh objects) against a reference builder, plus loopback connects",
-         "All builder states reachable with a 33-setter (quick) / 43-setter (thorough) alphabet - each flag helper on/off, wholesale flag replacement, prefix / interval / name / password / request id present or absent, tcp, udp with and without local address, compressed, uncompressed, relay - are explored; on every transition isi() must not panic and must equal the reference builder's ISI (documented defaults, later calls override earlier ones). 72 connects (tcp / udp without / with local address x mode x blocking/tokio x 6 ISI configurations) check that the peer receives exactly the encoded ISI and nothing else.",
+         "All builder states reachable with a 34-setter (quick) / 47-setter (thorough) alphabet - each flag helper on/off, wholesale flag replacement (incl. unnamed bits), prefix / interval / name / password / request id present or absent, tcp, udp without a local address and with 3 / 6 (remote, local) address pairs across both IP families, compressed, uncompressed, relay - are explored; on every transition isi() must not panic and must equal the reference builder's ISI (documented defaults, later calls override earlier ones). 480 connects (tcp / udp without / with local address - IPv4, IPv6 wildcard towards an IPv4 peer, IPv6 loopback - x mode x blocking/tokio x 12 ISI configurations x mode chosen first / last) check that the peer receives exactly the encoded ISI and nothing else.",
          "Setter arguments are limited to 2-3 representatives each.", "DESIGN.md §4 C18", "E2")
 CHECKS["C20"] = ("model_checking", "exhaustive enumeration of message schedules (partitions, interleavings, read sizes) executed on real loopback WebSocket connections",
          "Adaptor level: every partition of an 8/12-byte stream into binary messages x 8 caller read sizes, text / ping / empty-binary messages inserted at every boundary, 300 non-binary messages in a row, messages larger than the 1020-byte adaptor buffer (up to 200 000 bytes): bytes read = concatenated binary payloads, close = 0-byte read. Connection level: frame sequences x message partitions give exactly the TCP reference results and Disconnected on close; every kind's packet (both modes, up to the largest counted frames), sequences of writes and writes against a peer that does not read until the writer stalls leave as exactly one binary message per packet holding its frame.",
